@@ -37,7 +37,17 @@ PIPES = {
         "good": "assert (1,2,3)\nx = set([1])\nassert (4,5,6)\ny = 2\n",
         "queue": ["sonar:python/fix-assert-tuple", "pixee:python/use-set-literal"],
     },
+    # a DefectDojo-driven pipeline of two transformers: the first rewrites yaml.load, the second pickle.load
+    "multi": {
+        "good": "import pickle\nimport yaml\n\ndata = yaml.load(open('a.yml'))\nobj = pickle.load(open('b.bin', 'rb'))\nvalues = set([3])\n",
+        "queue": ["defectdojo:python/avoid-insecure-deserialization", "pixee:python/use-set-literal"],
+    },
+    "late": {
+        "good": "names = ['a', 'b']\nassert (1, 'two')\nz = len(names)\nassert (2, 'three')\n",
+        "queue": ["pixee:python/use-set-literal", "pixee:python/fix-assert-tuple"],
+    },
 }
+DOJO_RULE = "python.django.security.audit.avoid-insecure-deserialization.avoid-insecure-deserialization"
 FILES = ["a.py", "pkg/b.py", "pkg/sub/c.py"]
 
 
@@ -88,6 +98,8 @@ def build(pipe: str, faults: list[dict], sid: str) -> dict:
             inject.setdefault("vanish", []).append({"c": c, "f": f})
         elif x["kind"] == "malformedTree":
             inject.setdefault("malformed_tree", []).append({"c": c, "f": f})
+        elif x["kind"] == "raiseInLaterTransformer":
+            inject.setdefault("raise_in_transform", []).append({"c": c, "f": f, "t": 2})
         elif x["kind"] == "raise":
             inject.setdefault("raise_in_transform", []).append({"c": c, "f": f})
         elif x["kind"].startswith("raiseAtNode"):
@@ -97,6 +109,10 @@ def build(pipe: str, faults: list[dict], sid: str) -> dict:
     if pipe in ("sast", "sast2"):
         res["sonar.json"] = sonar_doc(pipe)
         argv += ["--sonar-issues-json", "{res}/sonar.json"]
+    if pipe == "multi":
+        res["dojo.json"] = {"results": [{"id": 10 * i + j, "title": DOJO_RULE, "file_path": p, "line": line}
+                                        for i, p in enumerate(FILES, 1) for j, line in enumerate((4, 5))]}
+        argv += ["--defectdojo-findings-json", "{res}/dojo.json"]
     return {"id": sid, "files": files, "resfiles": res, "steps": [{"argv": argv, "inject": inject, "keep_after": True}]}
 
 
